@@ -8,3 +8,13 @@ claim("C01",
       "modelled not verified: pydantic/polars/CPython primitives, Pillow widths (oracle), binary64 noise at flagged ties.",
       "Rocq proof over a Gallina model + checked model/code correspondence (differential, extracted OCaml)",
       "DESIGN.md section 6 C01")
+claim("C04",
+      "Theorems (Coq, unbounded): the greedy assignment assign_pages (port of _assign_pages) satisfies the boolean "
+      "check_assign for every metadata list, budget and new_page flag (break only if forced or overflowing; forced "
+      "rows always break), pages are numbered in steps of 0/1 from 1, the accounting never overflows except on "
+      "single-row pages, and appending rows leaves earlier pages unchanged. The same check_assign is evaluated on the "
+      "page membership of tagged rows read back from rtf_encode(); the model's page list must equal the implementation's.",
+      "Row heights are taken from the width oracle (Pillow, trusted); K2 (row metadata) is modelled and tied by "
+      "correspondence, not proved; generators keep every cell inside a k-line band (ties flagged and excluded).",
+      "Rocq proof (induction over the greedy loop) + checked model/code correspondence + exhaustive small core in thorough tier",
+      "DESIGN.md section 6 C04, section 5 K1")
